@@ -1,5 +1,6 @@
 import CJ.Lemmas.Ingress
 import CJ.Gen.C11Tables
+import CJ.Props.C14
 /-!
 # C11 — no externally supplied bytes can crash a station or registrar process
 
@@ -10,8 +11,11 @@ strings of any length, arbitrary lookup results, arbitrary registrar answers.
 What is modelled: the byte-level parsers of the DNS channel, the length guards in front of every slice
 of first-flight data in the wrapping transports (over the prefix table and the obfs4 constants
 regenerated from the tree, `CJ/Gen/C11Tables.lean`), and the nil-handling of the entry points that take
-optional protobuf sub-messages. What is not: protobuf, net/http, the obfs4 library, Noise — there the
-harness (differential fuzzing with `recover`, hang detection, HTTP status observation) is the evidence.
+optional protobuf sub-messages, and `getRemoteAddr` of the HTTP front end with Go's indexing as a partial
+operation (`indexAt`) behind `strings.Split`. What is not: protobuf, net/http, `net.ParseIP`, the obfs4
+library, Noise — there the harness (differential fuzzing with `recover`, hang detection, HTTP status
+observation) is the evidence. The IPv4 selector contract of `processBdReq` is discharged from C14's
+containment theorem (`processBdReq_no_panic_c14`).
 -/
 namespace CJ.Props.C11
 open CJ.Codec CJ.Ingress
@@ -144,6 +148,111 @@ theorem registerBidirectional_status (r : HttpReq) (newer : Bool) (proc : ProcRe
       · exact ⟨_, rfl⟩
       · cases proc <;> exact ⟨_, rfl⟩
 
+/-! ## the HTTP front end from the request as it arrives: `getRemoteAddr`
+
+`register_status` / `registerBidirectional_status` above start *after* `getRemoteAddr`; the model of the
+handlers has no partial operation. `getRemoteAddr` has three: `values[len(values)-1]`,
+`IPs[len(IPs)-1]`, `IPs[len(IPs)-2]` on what `strings.Split` made of a header value the peer chose. -/
+
+/-- Go's index expression is as partial in the model as in Go: a value iff `0 ≤ i < len(l)` -/
+theorem indexAt_safe_iff {α : Type} (l : List α) (i : Int) : (indexAt l i).Safe ↔ 0 ≤ i ∧ i < l.length :=
+  CJ.Ingress.indexAt_safe_iff l i
+
+/-- `strings.Split(value, ",")` never returns the empty slice — also not for the empty value, for a
+value of separators only, for any bytes at all -/
+theorem splitOn_ne_nil (sep : UInt8) (value : Bytes) : splitOn sep value ≠ [] :=
+  CJ.Ingress.splitOn_ne_nil sep value
+
+/-- it is `strings.Split`: `n` separators give `n + 1` pieces, and the pieces joined by the separator are
+the value again -/
+theorem splitOn_spec (sep : UInt8) (value : Bytes) :
+    (splitOn sep value).length = value.count sep + 1 ∧ [sep].intercalate (splitOn sep value) = value :=
+  ⟨CJ.Ingress.splitOn_length sep value, CJ.Ingress.splitOn_join sep value⟩
+
+/-- the model of `getRemoteAddr` is the general one at `strings.Split(·, ",")` -/
+theorem getRemoteAddr_eq : getRemoteAddr = getRemoteAddrWith (splitOn 44) := rfl
+
+/-- `getRemoteAddr` over any splitting function that never answers the empty slice: every index
+expression is in range — for every peer address, every list of header values (none, one, many, empty
+ones), every answer of `net.ParseIP` -/
+theorem getRemoteAddrWith_no_panic (split : Bytes → List Bytes) (hsplit : ∀ v, split v ≠ [])
+    (remote : Option String) (lb : Bool) (values : List Bytes) (parse : Bytes → Option String) :
+    (getRemoteAddrWith split remote lb values parse).Safe := by
+  obtain ⟨ip, h⟩ := getRemoteAddrWith_ok split hsplit remote lb values parse
+  rw [h]; exact .ok ip
+
+/-- … and that hypothesis is exactly what is needed: if the splitting function answers the empty slice
+for some value `v`, a request whose (last) `X-Forwarded-For` value is `v` panics -/
+theorem getRemoteAddrWith_empty_split_panics (split : Bytes → List Bytes) (v : Bytes) (hv : split v = [])
+    (remote : Option String) (lb : Bool) (parse : Bytes → Option String) :
+    getRemoteAddrWith split remote lb [v] parse = .panic "index out of range" := by
+  have h1 : indexAt [v] ((([v] : List Bytes).length : Int) - 1) = .ok v := rfl
+  unfold getRemoteAddrWith
+  rw [if_pos (by simp), h1, Outcome.ok_bind]
+  simp only [hv]
+  rfl
+
+/-- no panic for every request ⇔ the splitting function never answers the empty slice -/
+theorem getRemoteAddrWith_no_panic_iff (split : Bytes → List Bytes) :
+    (∀ remote lb values parse, (getRemoteAddrWith split remote lb values parse).Safe) ↔ ∀ v, split v ≠ [] := by
+  constructor
+  · intro h v hv
+    exact (h none false [v] (fun _ => none)).1 _ (getRemoteAddrWith_empty_split_panics split v hv _ _ _)
+  · intro h remote lb values parse
+    exact getRemoteAddrWith_no_panic split h remote lb values parse
+
+/-- the instance that matters: had the header been cut with a function that drops empty pieces (as
+`strings.FieldsFunc` does), the one-byte header value `,` would crash the registrar — whoever the peer
+is and whatever `net.ParseIP` answers -/
+theorem getRemoteAddrWith_needs_nonempty_split (remote : Option String) (lb : Bool) (parse : Bytes → Option String) :
+    getRemoteAddrWith (fieldsOn [44]) remote lb [[44]] parse = .panic "index out of range" :=
+  getRemoteAddrWith_empty_split_panics (fieldsOn [44]) [44] (by decide) remote lb parse
+
+/-- **`getRemoteAddr` never panics**: for every peer address, every number and content of
+`X-Forwarded-For` values and every answer of `net.ParseIP`, all three index expressions are in range
+(because `strings.Split` gives at least one piece) -/
+theorem getRemoteAddr_no_panic (remote : Option String) (lb : Bool) (values : List Bytes)
+    (parse : Bytes → Option String) : (getRemoteAddr remote lb values parse).Safe :=
+  getRemoteAddrWith_no_panic (splitOn 44) (CJ.Ingress.splitOn_ne_nil 44) remote lb values parse
+
+/-- it returns: an address or nil -/
+theorem getRemoteAddr_returns (remote : Option String) (lb : Bool) (values : List Bytes)
+    (parse : Bytes → Option String) : ∃ ip, getRemoteAddr remote lb values parse = .ok ip :=
+  getRemoteAddrWith_ok (splitOn 44) (CJ.Ingress.splitOn_ne_nil 44) remote lb values parse
+
+/-- without the header the peer address is the answer -/
+theorem getRemoteAddr_no_header (remote : Option String) (lb : Bool) (parse : Bytes → Option String) :
+    getRemoteAddr remote lb [] parse = .ok remote := rfl
+
+/-- **`POST /register`, from the request as it arrives: always a status** — for every list of
+`X-Forwarded-For` values, every `net.ParseIP`, every request and every answer of the registrar -/
+theorem registerHttp_status (remote : Option String) (lb : Bool) (values : List Bytes)
+    (parse : Bytes → Option String) (r : HttpReq) (proc : ProcResult) :
+    ∃ code, registerHttp remote lb values parse r proc = .ok code := by
+  obtain ⟨ip, h⟩ := getRemoteAddr_returns remote lb values parse
+  unfold registerHttp
+  rw [h, Outcome.ok_bind]
+  exact register_status _ proc
+
+/-- **`POST /register-bidirectional`, from the request as it arrives: always a status** -/
+theorem registerBidirectionalHttp_status (remote : Option String) (lb : Bool) (values : List Bytes)
+    (parse : Bytes → Option String) (r : HttpReq) (newer : Bool) (proc : ProcResult) :
+    ∃ code, registerBidirectionalHttp remote lb values parse r newer proc = .ok code := by
+  obtain ⟨ip, h⟩ := getRemoteAddr_returns remote lb values parse
+  unfold registerBidirectionalHttp
+  rw [h, Outcome.ok_bind]
+  exact registerBidirectional_status _ newer proc
+
+/-- no address at all (nil peer address, nothing parsable in the header) is answered 400 by both -/
+theorem registerHttp_no_address (remote : Option String) (lb : Bool) (values : List Bytes)
+    (parse : Bytes → Option String) (r : HttpReq) (newer : Bool) (proc : ProcResult)
+    (h : getRemoteAddr remote lb values parse = .ok none) :
+    registerHttp remote lb values parse r proc = .ok 400 ∧
+    registerBidirectionalHttp remote lb values parse r newer proc = .ok 400 := by
+  unfold registerHttp registerBidirectionalHttp
+  rw [h]
+  exact ⟨rfl, rfl⟩
+
 /-- a wrapper without registration payload is answered 400 -/
 theorem registerBidirectional_no_payload (r : HttpReq) (newer : Bool) (proc : ProcResult)
     (h1 : r.remoteAddrOk = true) (h2 : getC2SFromReq r = .inr false) :
@@ -192,6 +301,36 @@ theorem processBdReq_no_panic (r : BdReq) (h4 : ∀ ip, r.select4 = some ip → 
         · exact .ok _
       refine hsel.bind fun ok4 => ?_
       repeat (first | exact .ok _ | split)
+
+/-! ### the selector contract, discharged from C14 -/
+
+/-- what C14 proves about `(*PhantomIPSelector).Select(seed, gen, ver, v6 = false)` is what
+`processBdReq` needs: a successful IPv4 selection is 4 bytes long (`select_contained`), so
+`net.IP.To4` is not nil — for every generator, HKDF stream, configuration, seed, generation and
+library version -/
+theorem selector_contract_from_c14 (R : CJ.Phantom.Rng) (g : R.G) (h : CJ.Phantom.Hk) (cfg : CJ.Phantom.Cfg)
+    (seed : Bytes) (gen ver : Nat) (a : CJ.Phantom.Addr)
+    (hok : CJ.Props.C14.select R g h cfg seed gen ver false = .ok a) : (to4 a.bytes).isSome = true := by
+  have hl : a.bytes.length = 4 := by
+    simpa using (CJ.Props.C14.select_contained R g h cfg seed gen ver false a hok).1
+  simp [to4, hl]
+
+/-- **`processBdReq` never panics when its IPv4 address comes from the C14 selector** — no hypothesis
+about the selector is left: every request whose `select4` is what `Select(…, v6 = false)` answered
+(an address, an error, even a panic caught upstream counted as error) -/
+theorem processBdReq_no_panic_c14 (R : CJ.Phantom.Rng) (g : R.G) (h : CJ.Phantom.Hk) (cfg : CJ.Phantom.Cfg)
+    (seed : Bytes) (gen ver : Nat) (r : BdReq)
+    (hsel : r.select4 = match CJ.Props.C14.select R g h cfg seed gen ver false with
+      | .ok a => some a.bytes
+      | _ => none) : (processBdReq r).Safe := by
+  apply processBdReq_no_panic
+  intro ip hip
+  rw [hsel] at hip
+  split at hip
+  · rename_i a ha
+    cases hip
+    exact selector_contract_from_c14 R g h cfg seed gen ver a ha
+  · cases hip
 
 theorem processBdReq_no_payload (r : BdReq) (h : r.hasPayload = false) : processBdReq r = .ok .errNoC2SBody := by
   simp [processBdReq, h]
@@ -259,5 +398,52 @@ example : wrapPrefix CJ.Gen.C11.prefixTable (List.replicate 64 0) (fun _ => some
   decide
 example : readName [0xc0, 0x00] 0 = .err .tooManyPointers := by decide
 example : CJ.Gen.C11.prefixTable ≠ [] ∧ CJ.Gen.C11.derefSites ≠ [] := by decide
+
+/-- a parse function for the examples: `1.2.3.4` and ` 5.6.7.8` (trimmed) parse, nothing else does -/
+def exParse (c : Bytes) : Option String :=
+  if c = [49, 46, 50, 46, 51, 46, 52] then some "1.2.3.4"
+  else if c = [32, 53, 46, 54, 46, 55, 46, 56] then some "5.6.7.8" else none
+
+-- `getRemoteAddrWith_no_panic`: the hypothesis holds for `strings.Split` …
+example : ∀ v, splitOn 44 v ≠ [] := CJ.Ingress.splitOn_ne_nil 44
+-- … and `getRemoteAddrWith_empty_split_panics`: it fails for the `FieldsFunc`-like splitter, on `,` and on the empty value
+example : fieldsOn [44] [44] = [] ∧ fieldsOn [44] [] = [] ∧ fieldsOn [44] [49, 44, 44, 50] = [[49], [50]] := by decide
+example : splitOn 44 [] = [[]] ∧ splitOn 44 [44] = [[], []] ∧ splitOn 44 [49, 44, 44, 50] = [[49], [], [50]] := by decide
+-- the branches of `getRemoteAddr`: `X-Forwarded-For: 1.2.3.4, 5.6.7.8` from a remote peer → the last entry,
+example : getRemoteAddr (some "9.9.9.9") false [[49, 46, 50, 46, 51, 46, 52, 44, 32, 53, 46, 54, 46, 55, 46, 56]] exParse =
+    .ok (some "5.6.7.8") := by decide
+-- from a loopback peer → the second-last,
+example : getRemoteAddr (some "127.0.0.1") true [[49, 46, 50, 46, 51, 46, 52, 44, 32, 53, 46, 54, 46, 55, 46, 56]] exParse =
+    .ok (some "1.2.3.4") := by decide
+-- the last header value counts; a value `,` from a loopback peer (pieces `""`, `""`) falls back to the peer,
+example : getRemoteAddr (some "127.0.0.1") true [[49, 46, 50, 46, 51, 46, 52], [44]] exParse = .ok (some "127.0.0.1") := by
+  decide
+-- an empty header value and a nil peer address: nil, and the handlers answer 400 (`registerHttp_no_address`)
+example : getRemoteAddr none false [[]] exParse = .ok none := by decide
+example : registerHttp none false [[]] exParse ⟨true, true, 40, true, some true⟩ .ok = .ok 400 := by decide
+example : registerHttp (some "9.9.9.9") false [] exParse ⟨false, true, 40, true, some true⟩ .ok = .ok 204 := by decide
+example : registerBidirectionalHttp none true [[44], [49, 46, 50, 46, 51, 46, 52]] exParse ⟨false, true, 40, true, some true⟩ false .ok =
+    .ok 200 := by decide
+-- `indexAt` does panic out of range (both sides)
+example : indexAt ([] : List Bytes) ((0 : Int) - 1) = .panic "index out of range" ∧
+    indexAt [[1]] (1 : Int) = .panic "index out of range" ∧ indexAt [[1], [2]] ((2 : Int) - 2) = .ok [1] := by decide
+
+-- `selector_contract_from_c14` / `processBdReq_no_panic_c14`: C14's selector does answer (HKDF path and legacy path)
+example : CJ.Props.C14.select CJ.Props.C14.toyRng CJ.Props.C14.toy0 CJ.Props.C14.zeroHk CJ.Props.C14.cfg0 [7] 1 2 false =
+    .ok ⟨[10, 1, 0, 0], true⟩ := by decide
+example : (⟨true, true, true, false, some [10, 1, 0, 0], none, true, true, true, true⟩ : BdReq).select4 =
+    match CJ.Props.C14.select CJ.Props.C14.toyRng CJ.Props.C14.toy0 CJ.Props.C14.zeroHk CJ.Props.C14.cfg0 [7] 1 2 false with
+    | .ok a => some a.bytes
+    | _ => none := by decide
+-- also with a leading-zero network (`0.1.2.0/24`, the C14 finding that made `To4()` nil before its repair)
+example : (⟨true, true, true, false, some [0, 1, 2, 1], none, true, true, true, true⟩ : BdReq).select4 =
+    match CJ.Props.C14.select CJ.Props.C14.toyRng CJ.Props.C14.toy0 CJ.Props.C14.zeroHk CJ.Props.C14.cfg0 [2, 0, 0, 1, 2] 1 1 false with
+    | .ok a => some a.bytes
+    | _ => none := by decide
+-- and an error of the selector is an error of `processBdReq`, not a panic
+example : (⟨true, true, true, false, none, none, true, true, true, true⟩ : BdReq).select4 =
+    match CJ.Props.C14.select CJ.Props.C14.toyRng CJ.Props.C14.toy0 CJ.Props.C14.zeroHk CJ.Props.C14.cfg0 [7] 9 2 false with
+    | .ok a => some a.bytes
+    | _ => none := by decide
 
 end CJ.Props.C11
